@@ -209,3 +209,187 @@ Proof.
   - cbn [w_body]. exact Hb.
   - reflexivity.
 Qed.
+
+(** ------------------------------------------------------------------------------------------
+    If-Modified-Since and variants: the 304 is decided on the date of the cache *entry* before the variant
+    vector is looked at.
+    ------------------------------------------------------------------------------------------ *)
+Lemma get_by_request_same_tuple {A} (v : varied A) r r1 :
+  headers_for_request (vr_refs v) r = headers_for_request (vr_refs v) r1 ->
+  vr_get_by_request v r = vr_get_by_request v r1.
+Proof. unfold vr_get_by_request. intros ->. reflexivity. Qed.
+
+Section Ims.
+  Variable hstate : Type.
+  Variable compute : hstate -> request -> bool -> fat * hstate * list bytes.
+  Variable cache_on : bool.
+  Variable ims_on : bool.
+  Variable parse_ims : bytes -> option Z.
+  Variable sanitize_ok : request -> bool.
+  Variable prime : request -> request.
+  Variable negotiate : request -> fat -> option (N * bytes).
+  Variable rules_of : bytes -> list rule.
+  Variable dbg : bool.
+
+  Notation own := (own_tuple rules_of).
+  Notation serveX := (serveV hstate compute cache_on ims_on parse_ims sanitize_ok prime negotiate rules_of dbg).
+  Notation stepX := (stepV hstate compute cache_on ims_on parse_ims sanitize_ok prime negotiate rules_of dbg).
+
+  (** the reply [handle_cache] makes up when the client's date is fresh *)
+  Definition reply304 : reply :=
+    {| rp_status := 304; rp_headers := []; rp_body := []; rp_identity := []; rp_last_modified := ims_on; rp_from_cache := true |}.
+
+  (** the condition under which it is sent: an entry for the request's key, a request that passed sanitize,
+      GET or HEAD, and a date not older than the *entry's* creation minus one second.  Nothing about the
+      request's own transformed tuple: *)
+  Definition ims_hit (c : vcache) (now : N) (r0 : request) (k : key) (e : ventry) (c1 : vcache) : Prop :=
+    cache_on = true /\ ims_on = true /\ vlookup (prime r0) c now = ((k, Some e), c1) /\
+    sanitize_ok r0 = true /\ get_or_head (rq_method (prime r0)) = true /\
+    exists v t, header (B "if-modified-since") (prime r0) = Some v /\ parse_ims v = Some t /\
+                ims_fresh t (ve_created e) = true.
+
+  Lemma not_modified_before_lookup c hs now r0 k e c1 :
+    ims_hit c now r0 k e c1 -> serveX (c, hs) now r0 = Ok ((c1, hs), reply304, [], []).
+  Proof.
+    intros (Hc & Hi & L & Hs & Hg & v & t & Hh & Hp & Hf).
+    unfold serveV, serveV_phase1. rewrite Hc. cbn [negb]. rewrite L, Hs, Hg. cbn [andb].
+    rewrite Hi, Hh, Hp, Hf. unfold reply304. rewrite Hi. reflexivity.
+  Qed.
+
+  (** ... but the 304 tells the truth to every client whose copy came out of the entry it is decided on:
+      a request with the same path and an equal transformed list would be served the very response the
+      earlier request [r1] was served from this entry *)
+  Lemma not_modified_same_entry c k e r r1 p :
+    InvV hstate compute rules_of c -> pc_find k c = Some e -> kpath k = rq_path r ->
+    rq_path r1 = rq_path r -> own r1 = own r ->
+    vr_get_by_request (ve_var e) r1 = Ok (Hit p) ->
+    vr_get_by_request (ve_var e) r = Ok (Hit p) /\ snd p = own r.
+  Proof.
+    intros I F Hk Hp Ho Hg. destruct (I k e F) as (_ & _ & Hrefs & _).
+    assert (E : headers_for_request (vr_refs (ve_var e)) r = headers_for_request (vr_refs (ve_var e)) r1).
+    { rewrite Hrefs, Hk. unfold own_tuple in Ho. rewrite Hp in Ho. symmetry. exact Ho. }
+    rewrite (get_by_request_same_tuple (ve_var e) r r1 E). split; [exact Hg|].
+    destruct (get_by_request_exact (ve_var e) r1 p Hg) as [_ Hs]. rewrite Hs, <- E, Hrefs, Hk. reflexivity.
+  Qed.
+
+  (** ... and an entry never changes under its date: whatever a step does to the value stored under a key
+      — insert a first variant, push another one, replace — the new value is dated with the time of the step *)
+  Definition dated (now : N) (c c' : vcache) : Prop :=
+    forall k, pc_find k c' = pc_find k c \/ pc_find k c' = None \/ exists e', pc_find k c' = Some e' /\ ve_created e' = now.
+
+  Lemma dated_refl now c : dated now c c.
+  Proof. intros k. left. reflexivity. Qed.
+  Lemma dated_trans now c1 c2 c3 : dated now c1 c2 -> dated now c2 c3 -> dated now c1 c3.
+  Proof.
+    intros H1 H2 k. destruct (H2 k) as [E | [E | E]].
+    - rewrite E. apply H1.
+    - right. left. exact E.
+    - right. right. exact E.
+  Qed.
+  Lemma dated_remove now k c : dated now c (pc_remove k c).
+  Proof. intros k0. rewrite pc_find_remove. destruct (key_eqb k0 k); [right; left | left]; reflexivity. Qed.
+  Lemma dated_insert now k e c : ve_created e = now -> dated now c (pc_insert k e c).
+  Proof.
+    intros He k0. rewrite pc_find_insert. destruct (key_eqb k0 k); [right; right; exists e; split; [reflexivity | exact He] | left; reflexivity].
+  Qed.
+  Lemma dated_get_item now now' k c res c' : vget_item k c now' = (res, c') -> dated now c c'.
+  Proof.
+    unfold vget_item. destruct (pc_find k c) as [e|].
+    - destruct (vfresh e now'); intros H; inversion H; subst; [apply dated_refl | apply dated_remove].
+    - intros H; inversion H; subst. apply dated_refl.
+  Qed.
+  Lemma dated_vlookup now now' r c kr c' : vlookup r c now' = (kr, c') -> dated now c c'.
+  Proof.
+    unfold vlookup. destruct (vget_item (key_pq r) c now') as [[e|] c1] eqn:G1.
+    - intros H; inversion H; subst. eapply dated_get_item; eassumption.
+    - destruct (vget_item (key_p r) c1 now') as [res2 c2] eqn:G2. intros H; inversion H; subst.
+      eapply dated_trans; eapply dated_get_item; eassumption.
+  Qed.
+  Lemma dated_vrelookup now now' k c kr c' : vrelookup k c now' = (kr, c') -> dated now c c'.
+  Proof.
+    unfold vrelookup. destruct (vget_item k c now') as [[e|] c1] eqn:G1.
+    - intros H; inversion H; subst. eapply dated_get_item; eassumption.
+    - destruct k as [p|s i].
+      + intros H; inversion H; subst. eapply dated_get_item; eassumption.
+      + destruct (vget_item (KPath (firstn i s)) c1 now') as [res2 c2] eqn:G2. intros H; inversion H; subst.
+        eapply dated_trans; eapply dated_get_item; eassumption.
+  Qed.
+  Lemma dated_new_and_cache c1 hs' now r f lg lm_of cached st' rp lg' calls :
+    new_and_cache hstate cache_on negotiate rules_of dbg c1 hs' now r f lg lm_of cached = Ok (st', rp, lg', calls) ->
+    dated now c1 (fst st').
+  Proof.
+    unfold new_and_cache. destruct (vr_new dbg f r (rules_of (rq_path r))) as [vr|e|]; try discriminate.
+    destruct (vr_first vr) as [[f0 vary]|e|]; try discriminate.
+    destruct (may_store cache_on (rq_method r) f0); intros H; inversion H; subst; cbn [fst].
+    - apply dated_insert. reflexivity.
+    - apply dated_refl.
+  Qed.
+
+  Lemma dated_phase2 c hs now p st' rp lg calls :
+    serveV_phase2 hstate compute cache_on ims_on negotiate rules_of dbg c hs now p = Ok (st', rp, lg, calls) ->
+    dated now c (fst st').
+  Proof.
+    destruct p as [r ok | r ok k position headers]; cbn [serveV_phase2].
+    - unfold missV. destruct (compute hs r ok) as [[f hs'] lg0]. apply dated_new_and_cache.
+    - unfold vary_missing. destruct (compute hs r ok) as [[f hs'] lg0].
+      destruct (vrelookup k c now) as [[k' found'] c2] eqn:L. pose proof (dated_vrelookup now now k c _ _ L) as D.
+      destruct found' as [e'|].
+      + destruct (vr_get_by_request (ve_var e') r) as [[p0 | position' headers'] | e | ]; try discriminate.
+        * intros H; inversion H; subst. exact D.
+        * destruct (vr_push dbg (ve_var e') f position' headers') as [[vr' [f1 vary1]] | e | ]; try discriminate.
+          intros H; inversion H; subst. cbn [fst]. eapply dated_trans; [exact D|]. apply dated_insert. reflexivity.
+      + intros H. eapply dated_trans; [exact D|]. eapply dated_new_and_cache. exact H.
+  Qed.
+
+  Lemma dated_serve c hs now r0 st' rp lg calls :
+    serveX (c, hs) now r0 = Ok (st', rp, lg, calls) -> dated now c (fst st').
+  Proof.
+    unfold serveV, serveV_phase1. destruct (negb cache_on) eqn:Hc; cbn [snd].
+    { intros H. eapply dated_phase2. exact H. }
+    destruct (vlookup (prime r0) c now) as [[k found0] c1] eqn:L. pose proof (dated_vlookup now now _ c _ _ L) as D.
+    destruct found0 as [e|].
+    2:{ intros H. eapply dated_trans; [exact D|]. eapply dated_phase2. exact H. }
+    destruct (sanitize_ok r0 && get_or_head (rq_method (prime r0))).
+    2:{ intros H. eapply dated_trans; [exact D|]. eapply dated_phase2. exact H. }
+    destruct (match (if ims_on then match header (B "if-modified-since") (prime r0) with Some v => parse_ims v | None => None end else None)
+              with Some t => ims_fresh t (ve_created e) | None => false end).
+    { intros H; inversion H; subst. exact D. }
+    destruct (vr_get_by_request (ve_var e) (prime r0)) as [[[f vary] | position headers] | e0 | ]; try discriminate.
+    - intros H; inversion H; subst. exact D.
+    - intros H. eapply dated_trans; [exact D|]. eapply dated_phase2. exact H.
+  Qed.
+
+  Lemma entry_changes_are_dated_lemma st now o st' now' ob calls :
+    stepX st now o = Ok (st', now', ob, calls) -> dated now (fst st) (fst st').
+  Proof.
+    destruct st as [c hs]. destruct o as [r | r | | ms]; cbn [stepV fst].
+    - destruct (serveX (c, hs) now r) as [[[[st1 rp] lg] cl] | e | ] eqn:S; try discriminate.
+      intros H; inversion H; subst. eapply dated_serve. exact S.
+    - intros H; inversion H; subst. cbn [fst]. unfold vclear_page.
+      eapply dated_trans; apply dated_remove.
+    - intros H; inversion H; subst. cbn [fst]. intros k. right. left. reflexivity.
+    - intros H; inversion H; subst. apply dated_refl.
+  Qed.
+End Ims.
+
+(** the 304 for a transformed tuple the server never computed (replayed on the real code):
+    GET /v x-a:a; GET /v x-a:zz if-modified-since: start + 100 s; dump; GET /v x-a:zz *)
+Definition ims_history : xval :=
+  XL [ XL [ XL [XB (B "cache"); XN 1]; XL [XB (B "default_ext"); XN 0];
+            XL [XB (B "handlers"); XL [ XL [XB (B "/v"); XN 3; XN 200; XB (B "T0"); XL []; XN 2; XN 0; XN 0; XN 1;
+                                          XL [XL [XB (B "x-a"); XN 0; XB (B "dflt")]]] ]];
+            XL [XB (B "vary"); XL [ XL [XB (B "/v"); XL [XL [XB (B "x-a"); XN 0; XB (B "dflt")]]] ]];
+            XL [XB (B "report"); XL [XB (B "vary")]];
+            XL [XB (B "disable_ims"); XN 0] ];
+       XL [ XL [XN 0; XN 1; XB (B "GET"); XB (B "/v"); XL [XL [XB (B "x-a"); XB (B "a")]]; XB []];
+            XL [XN 0; XN 1; XB (B "GET"); XB (B "/v");
+                XL [XL [XB (B "x-a"); XB (B "zz")]; XL [XB (B "if-modified-since"); XB (B "@T+100")]]; XB []];
+            XL [XN 4; XB (B "/v")];
+            XL [XN 0; XN 1; XB (B "GET"); XB (B "/v"); XL [XL [XB (B "x-a"); XB (B "zz")]]; XB []] ] ].
+Definition ims_history_out : xval :=
+  XL [ XL [XN 200; XL [XL [XB (B "vary"); XB (B "accept-encoding, range, x-a")]]; XB (B "T0|a"); XN 1; XB (B "T0|a"); XL [XB (B "h0")]];
+       XL [XN 304; XL []; XB []; XN 1; XB []; XL []];
+       XL [XL []; XL [XL [XL [XL [XB (B "x-a"); XB (B "a")]]]]];
+       XL [XN 200; XL [XL [XB (B "vary"); XB (B "accept-encoding, range, x-a")]]; XB (B "T0|zz"); XN 1; XB (B "T0|zz"); XL [XB (B "h0")]] ].
+Lemma ims_unselected_variant : run_vary ims_history = ims_history_out.
+Proof. vm_compute. reflexivity. Qed.
